@@ -274,6 +274,9 @@ func parseOpt(s string) int64 {
 }
 
 func exec(c *hx.Ctx, line string) string {
+	if strings.HasPrefix(line, "stress ") {
+		return runStress(c, strings.Fields(line))
+	}
 	parts := strings.SplitN(line, " | ", 2)
 	if len(parts) != 2 {
 		return "bad-script"
